@@ -59,7 +59,7 @@ CHECKS = {
                   'validated as traces by TLC (ShuffleBatchTrace.tla), permutations inferred from the stream',
         text='TLC proves windows-are-permutations, balance, cyclic order without shuffling and the documented batch '
              'count (against a declarative restatement) for all small instances; every recorded real stream over much '
-             'larger ranges and many seeds must be a behaviour of the specification with the same invariants.',
+             'larger ranges and many seeds must be a behaviour of the specification with the same invariants; every call style (object, keywords, object + overrides incl. None) and NumPy-integer sizes / seeds.',
         note='Which permutation is drawn is left to NumPy; re-shuffling asserted only for N>=8 over >=3 windows.',
         design='5/C04'),
     'C05': dict(
@@ -75,7 +75,7 @@ CHECKS = {
              'statistics (with and without zero) must agree with evaluate_model; all configurations of a metric class '
              'are evaluated on one batch through the jitted path in one process, each against its own statistics; '
              'ModelEvaluator runs on 2 and 3 forced devices over clients with different batch counts, and without jit '
-             '(debug backend, disable_jit) over the same cached batches twice.',
+             '(debug backend, disable_jit) over the same cached batches twice; batches and client lists as lists, iterators and generators.',
         note='Cross-entropy metrics only relationally (tolerance classes); banks of <= 4 examples, <= 3 batches of <= 3 rows.',
         design='5/C05'),
     'C06': dict(
@@ -88,7 +88,8 @@ CHECKS = {
              'full-batch gradient and per-domain sums equal their batch-free definitions with the regulariser once '
              '(three deviations reported); the layouts are executed on seven real entry points and compared with the '
              'TLC rationals; agnostic FedAvg domain weights (with and without regulariser), HypCluster assignment and '
-             'Mime/MimeLite rounds must not depend on padded batch size / buckets, also for cohorts in which a domain has no example or a client has none; one-pass batch inputs.',
+             'Mime/MimeLite rounds must not depend on padded batch size / buckets, also for cohorts in which a domain has no example or a client has none; one-pass batch inputs; the packaged l2_regularizer with centres / per-parameter weights, several of equal structure in a row; '
+             'agnostic FedAvg\'s newest window row equals the cohort counts also with a zero initial domain weight.',
         note='Exact island: scalar parameter, quadratic loss, L2 regulariser with dyadic weight.',
         design='5/C06'),
     'C07': dict(
@@ -100,7 +101,7 @@ CHECKS = {
              'identity of clipping on Pythagorean vectors; every emitted case is executed on the real functions with '
              'NumPy and JAX leaves and list/generator/map inputs, comparing the value with the TLC rational and '
              'inspecting every caller array (deleted? changed? aliased?); random trees include clients with different leaf '
-             'dtypes in every order; weights of every numeric type; complex leaves in clipping.',
+             'dtypes in every order; weights of every numeric type; complex leaves in clipping; example counts in narrow integer dtypes whose total overflows the dtype.',
         note='float32 rounding tolerated when the denominator is not a power of two; aliasing observable for JAX '
              'arrays only.',
         design='5/C07'),
@@ -160,7 +161,8 @@ CHECKS = {
              'clients and rounds (two deviations reported); for each case every coordinate of the real quantizer must '
              'lie in the outcome set and the frequency of "ceil" within the Hoeffding radius (delta 1e-12) of the exact '
              'probability; all aggregators are run on constant / zero / size-1 / 1e30-range leaves, for three rounds '
-             'with weighted clients and with twin clients.',
+             'with weighted clients and with twin clients; level counts up to 2^16 + 1; the rotation-based aggregators also under the '
+             'legacy threefry implementation.',
         note='Unbiasedness of the implementation is established statistically, not symbolically; TernGrad on symmetric '
              'vectors with rational standard deviation.',
         design='5/C11'),
@@ -186,7 +188,8 @@ CHECKS = {
              'design (with hidden-generator and off-by-one-restart deviations reported); each history plus longer '
              'random ones is executed on the real samplers, in this process and in restarted processes with other '
              'hash seeds, and TLC checks over all executions of a configuration that a round always returns the same '
-             'ids/datasets/keys, no repeats, ids from the dataset, keys distinct within and across rounds.',
+             'ids/datasets/keys, no repeats, ids from the dataset, keys distinct within and across rounds; a second sampler with another cohort size samples alongside in one execution '
+             'per configuration; samplers over datasets built and dropped at reused addresses.',
         note='Outputs compared by content digest; the no-repeat clause applies to the round-indexed sampler only.',
         design='5/C13'),
     'C14': dict(
@@ -209,7 +212,8 @@ CHECKS = {
              'machine for all size sequences in the bounds, exactly-once emission of buffered shuffling for all '
              'permutations/swap indices, and pass equality of the repeatable iterator; each is bound to the code by '
              'exhaustive replay of the emitted cases and by TLC validation of recorded real runs over larger ranges and over '
-             'twelve kinds of base iterables (containers, iterators, iterables whose every iter() differs).',
+             'twelve kinds of base iterables (containers, iterators, iterables whose every iter() differs); shuffled clients over in-memory, subset and slice views with buffers longer than '
+             'the population.',
         note='A trailing batch with no real row is accepted either way; non-trivial order only for streams >= 10; '
              'empty federated datasets are C08 territory.',
         design='5/C15'),
@@ -222,7 +226,8 @@ CHECKS = {
              'round-trip, unsupported ones are rejected and nothing is silently altered (three deviations reported); each '
              'abstract tree is executed with random concrete instantiations and the real outcome (equal / rejected / '
              'altered) must be the specification\'s; datasets written through the SQLite builder are read back twice '
-             '(with an in-place edit of the first result in between) and server states through save_state / checkpoints.',
+             '(with an in-place edit of the first result in between) and server states through save_state / checkpoints; the builder is fed lists and one-shot iterables and read between '
+             'two add_many calls; interleaved reads on one object.',
         note='The TLA+ contribution is the decision table and the compositional enumeration; value equality is the '
              'driver projection (type, dtype name, shape, tolist).',
         design='5/C16'),
@@ -237,7 +242,8 @@ CHECKS = {
              'assignment and changed clusters bound in every round, domain weights on the simplex, coefficients in '
              '[0,1], assignment of minimal loss (independent float64 loss); MimeLite aggregate and per-client norms within '
              'the bound; frozen leaves bit-identical and trainable leaves equal to the base optimizer for four ignored sets; '
-             'APFL\'s evaluation function runs between rounds on never-trained clients and must leave the table unchanged.',
+             'APFL\'s evaluation function runs between rounds on never-trained clients and must leave the table unchanged; agnostic FedAvg is built from arrays, lists and with the default window, and every '
+             'fourth history starts a domain with weight 0; ignore_grads over base optimizers with weight decay.',
         note='Numeric flags (simplex, unit interval, argmin with 1e-4 tie tolerance, norms) are evaluated by the driver and '
              'judged by TLC.',
         design='5/C17'),
@@ -250,7 +256,8 @@ CHECKS = {
              '2^1..2^6 by transforming every basis vector, and norm preservation / invertibility of the rotation for '
              'every sign vector on sizes 1..9; the real transform of the identity (all lengths to 2^9, sparse vectors to '
              '2^12/2^14, block size explicit or defaulted) must equal the Sylvester matrix exactly, twice = n * id, and '
-             'the rotation must preserve the norm, be inverted by the same key, differ between keys.',
+             'the rotation must preserve the norm, be inverted by the same key, differ between keys; trees with tied leaves, tuple / namedtuple / None nodes, host buffers '
+             'un-rotated twice, fresh key objects at reused addresses.',
         note='Block sizes giving more than 6 einsum axes are checked on the specification only (XLA:CPU compile time); '
              'rank-0 inputs reported as information.',
         design='5/C18'),
@@ -281,7 +288,7 @@ CHECKS = {
              'zero for constant images, and the EMNIST ranges for all 10 000 writers; every table row is executed on '
              'the real functions; the ids assumed by the Shakespeare and StackOverflow models must equal the ids their '
              'datasets produce; eval preprocessing must equal tf.image.per_image_standardization of the centre crop '
-             'for crop sizes 1..32; each example\'s prediction and loss must not depend on the other rows.',
+             'for crop sizes 1..32; each example\'s prediction and loss must not depend on the other rows, nor (StackOverflow) on how far the batch is padded.',
         note='Datasets cannot be downloaded: synthetic inputs; StackOverflow with a small explicit vocabulary; row '
              'independence is relational (tolerance classes).',
         design='5/C20'),
